@@ -1,11 +1,1089 @@
-//! C06 — not implemented yet (stub).
-use crate::engine::Ctx;
-use serde_json::Value;
+//! C06 — critical points and spinodals satisfy their defining conditions.
+//!
+//! Every condition is recomputed from public getters on a *fresh* state rebuilt at the
+//! returned (T, V, N): pure fluids dp/dV = d2p/dV2 = 0 at p > 0; mixtures the smallest
+//! eigenvalue of M_ij = sqrt(N_i N_j) dmu_i/dN_j (Total) / (RT) (own Jacobi solver) and the
+//! cubic form along its eigenvector (Ridders' central differences of the quadratic form).
+use crate::engine::{Ctx, Gen, Obs, PanicPolicy, PartCfg};
+use crate::model::*;
+use crate::oracle::{jacobi_eigen, ridders};
+use feos::core::{
+    Components, Contributions, PhaseDiagram, PhaseEquilibrium, ReferenceSystem, Residual, SolverOptions,
+    State,
+};
+use ndarray::Array1;
+use quantity::*;
+use serde::{Deserialize, Serialize};
+use serde_json::{json, Value};
+use std::sync::Arc;
 
-pub fn run(_ctx: &Ctx) {
-    panic!("C06: check not implemented yet");
+use Contributions::Total as TOT;
+
+// ---------------------------------------------------------------------------------------
+// tolerances (dimensionless; see `run` for the reasoning and the measured worst values)
+// ---------------------------------------------------------------------------------------
+/// pure fluids: |V^2 dp_dv/(N R T)| and |V^3 d2p_dv2/(N R T)| at a returned critical point
+/// (100 x what the solver's 1e-8 objective tolerance implies; worst seen 2.3e-12 / 1.0e-11)
+pub const TOL_PURE_1: f64 = 1e-6;
+pub const TOL_PURE_2: f64 = 1e-4;
+/// smallest eigenvalue of M at returned spinodal states (worst seen 2.7e-12)
+pub const TOL_SPINODAL: f64 = 1e-6;
+/// smallest eigenvalue of M and scale-invariant cubic form at returned (mixture) critical points.
+/// The solver tests norm([lambda_min, v3]) < 1e-8 *before* its last update, and its v3 scales
+/// with N^(-1/2) (1e-12 for one mole), so the cubic condition does not take part in the test:
+/// worst seen over 8 seeds + a 20 x run: |lambda_min| 3.2e-6, |cubic| 1.4e-5 (PC-SAFT
+/// tetradecane/eicosane/hexadecane, replay kept); tolerances = 50 x that.
+pub const TOL_LAMBDA: f64 = 2e-4;
+pub const TOL_CUBIC: f64 = 1e-3;
+/// Peng-Robinson: computed (Tc, pc) against the record
+pub const TOL_PR: f64 = 3e-4;
+/// binary critical point at given p (worst seen 4.9e-9)
+pub const TOL_P: f64 = 1e-6;
+/// two converged solves from different initial temperatures (Peng-Robinson pure: unique root)
+pub const TOL_SAME: f64 = 1e-6;
+
+type St = State<Model>;
+
+/// largest observed values of the asserted quantities (reported in the evidence)
+static WORST: std::sync::Mutex<std::collections::BTreeMap<String, f64>> = std::sync::Mutex::new(std::collections::BTreeMap::new());
+fn worst(key: &str, v: f64) {
+    if v.is_finite() {
+        let mut w = WORST.lock().unwrap();
+        let e = w.entry(key.to_string()).or_insert(0.0);
+        if v > *e {
+            *e = v;
+        }
+    }
 }
 
-pub fn replay(_ctx: &Ctx, _part: &str, _case: &Value) -> bool {
-    panic!("C06: check not implemented yet");
+/// record a violated clause together with a histogram label (the engine keeps only the first
+/// ten failing lattice cases, the labels show every clause that failed anywhere)
+fn ensure(obs: &mut Obs, key: &str, cond: bool, msg: impl FnOnce() -> String) -> bool {
+    if !cond {
+        obs.class(format!("FAILED:{key}"));
+    }
+    obs.ensure(cond, msg)
+}
+
+fn fresh(model: &Arc<Model>, s: &St) -> Option<St> {
+    State::new_nvt(model, s.temperature, s.volume, &s.moles).ok()
+}
+
+/// What the criticality / spinodal conditions evaluate to on a state.
+struct Measures {
+    lambda_min: f64,
+    /// eigenvector of the smallest eigenvalue
+    u: Vec<f64>,
+}
+
+fn m_matrix(s: &St) -> Vec<Vec<f64>> {
+    let n = s.eos.components();
+    let nm = s.moles.to_reduced();
+    let t = s.temperature.to_reduced();
+    let d = s.dmu_dni(TOT).to_reduced();
+    (0..n)
+        .map(|i| (0..n).map(|j| (nm[i] * nm[j]).sqrt() * d[[i, j]] / t).collect())
+        .collect()
+}
+
+fn measures(s: &St) -> Measures {
+    let m = m_matrix(s);
+    let (ev, vecs) = jacobi_eigen(&m);
+    let n = ev.len();
+    let mut k = 0;
+    for i in 1..n {
+        if ev[i] < ev[k] {
+            k = i;
+        }
+    }
+    let u: Vec<f64> = (0..n).map(|i| vecs[i][k]).collect();
+    Measures { lambda_min: ev[k], u }
+}
+
+/// Scale-invariant cubic form C = sqrt(N) * sum_ijk A_ijk dn_i dn_j dn_k / (RT) with
+/// dn_i = u_i sqrt(N_i), as the derivative with respect to eps of
+/// q(eps) = dn^T dmu_dni(T, V, n + eps sqrt(N) dn) dn / (RT)   (q(0) = lambda_min).
+/// Returns (C, error estimate).
+fn cubic_form(model: &Arc<Model>, s: &St, u: &[f64]) -> Option<(f64, f64)> {
+    let nm = s.moles.to_reduced();
+    let ntot: f64 = nm.sum();
+    let t = s.temperature.to_reduced();
+    let dn: Vec<f64> = u.iter().zip(nm.iter()).map(|(u, n)| u * n.sqrt()).collect();
+    // keep all mole numbers positive: eps * sqrt(N) * |dn_i| < N_i / 2
+    let mut h0: f64 = 2e-2;
+    for i in 0..dn.len() {
+        if dn[i] != 0.0 {
+            h0 = h0.min(0.25 * nm[i] / (ntot.sqrt() * dn[i].abs()));
+        }
+    }
+    let q = |eps: f64| -> Option<f64> {
+        let n2: Array1<f64> = nm
+            .iter()
+            .zip(dn.iter())
+            .map(|(n, d)| n + eps * ntot.sqrt() * d)
+            .collect();
+        let st = State::new_nvt(model, s.temperature, s.volume, &Moles::from_reduced(n2)).ok()?;
+        let d = st.dmu_dni(TOT).to_reduced();
+        let mut acc = 0.0;
+        for i in 0..dn.len() {
+            for j in 0..dn.len() {
+                acc += dn[i] * dn[j] * d[[i, j]] / t;
+            }
+        }
+        Some(acc)
+    };
+    ridders(q, 0.0, h0)
+}
+
+/// criticality conditions of a returned state; `what` labels the messages.
+/// Returns true if both conditions were evaluated conclusively.
+fn check_critical(model: &Arc<Model>, s: &St, obs: &mut Obs, what: &str) -> bool {
+    let Some(f) = fresh(model, s) else {
+        obs.fail(format!("{what}: the returned state cannot be rebuilt with State::new_nvt"));
+        return false;
+    };
+    let ms = measures(&f);
+    worst(&format!("|lambda_min| {}", what.split(" (").next().unwrap_or(what)), ms.lambda_min.abs());
+    ensure(obs, "critical:lambda_min", ms.lambda_min.abs() <= TOL_LAMBDA, || {
+        format!(
+            "{what}: smallest eigenvalue of the scaled Hessian is {:e} (tolerance {TOL_LAMBDA:e}) at T={} rho={} x={}",
+            ms.lambda_min, f.temperature, f.density, f.molefracs
+        )
+    });
+    match cubic_form(model, &f, &ms.u) {
+        None => {
+            obs.inconclusive(format!("{what}: cubic form (neighbour state failed)"));
+            false
+        }
+        Some((c, err)) => {
+            if !(err <= TOL_CUBIC) {
+                obs.inconclusive(format!("{what}: cubic form"));
+                return false;
+            }
+            worst(&format!("|cubic| {}", what.split(" (").next().unwrap_or(what)), c.abs());
+            worst("cubic Ridders error estimate", err);
+            ensure(obs, "critical:cubic", c.abs() <= TOL_CUBIC + 50.0 * err, || {
+                format!(
+                    "{what}: cubic form along the critical eigenvector is {c:e} (err est {err:e}, tolerance {TOL_CUBIC:e}) at T={} rho={} x={}",
+                    f.temperature, f.density, f.molefracs
+                )
+            });
+            true
+        }
+    }
+}
+
+/// pure-fluid formulation of the property: dp/dV = 0, d2p/dV2 = 0, p > 0.
+/// Returns the pressure (reduced) of the fresh state.
+fn check_critical_pure(model: &Arc<Model>, spec: &ModelSpec, default_call: bool, s: &St, obs: &mut Obs, what: &str) -> f64 {
+    let Some(f) = fresh(model, s) else {
+        obs.fail(format!("{what}: the returned state cannot be rebuilt with State::new_nvt"));
+        return f64::NAN;
+    };
+    let v = f.volume.to_reduced();
+    let n: f64 = f.moles.to_reduced().sum();
+    let t = f.temperature.to_reduced();
+    let a = v * v * f.dp_dv(TOT).to_reduced() / (n * t);
+    let b = v * v * v * f.d2p_dv2(TOT).to_reduced() / (n * t);
+    let p = f.pressure(TOT).to_reduced();
+    worst("|V^2 dp_dv/(NRT)| pure", a.abs());
+    worst("|V^3 d2p_dv2/(NRT)| pure", b.abs());
+    ensure(obs, "pure:dp_dv", a.abs() <= TOL_PURE_1, || {
+        format!("{what}: V^2 dp_dv/(N R T) = {a:e} (tolerance {TOL_PURE_1:e}) at T={} rho={}", f.temperature, f.density)
+    });
+    ensure(obs, "pure:d2p_dv2", b.abs() <= TOL_PURE_2, || {
+        format!("{what}: V^3 d2p_dv2/(N R T) = {b:e} (tolerance {TOL_PURE_2:e}) at T={} rho={}", f.temperature, f.density)
+    });
+    obs.count();
+    if !(p > 0.0) {
+        let msg = format!(
+            "{what}: pressure {:e} Pa is not positive at T={} rho={}",
+            f.pressure(TOT).convert_to(PASCAL),
+            f.temperature,
+            f.density
+        );
+        obs.class("pure critical point at p <= 0");
+        // signature: the model has a confirmed vapour-liquid critical point at a higher
+        // temperature (found from other initial temperatures); the returned point is a second
+        // stationary point of the isotherms in the stretched-liquid region
+        if vle_critical_point_above(model, t).is_some() {
+            obs.known_or_fail("C06/pure-critical-point-negative-pressure", msg);
+        } else {
+            obs.class("FAILED:pure:p>0");
+            obs.fail(msg);
+        }
+    }
+    let _ = (spec, default_call);
+    p
+}
+
+/// Spinodal pair [vapor, liquid] at the given temperature against the critical point `cp` of the
+/// same model and composition. `vle`: saturated densities (vapor, liquid) of a pure fluid.
+/// `theta`: T / T_c.
+#[allow(clippy::too_many_arguments)]
+fn check_spinodal_pair(
+    model: &Arc<Model>,
+    sp: &[St; 2],
+    cp: &St,
+    t_spec: Option<Temperature>,
+    theta: f64,
+    vle: Option<(f64, f64)>,
+    in_domain: bool,
+    obs: &mut Obs,
+    what: &str,
+) {
+    let pure = cp.eos.components() == 1;
+    let rho_c = cp.density.to_reduced();
+    // states beyond the model's own liquid-density estimate (packing fraction max_eta) are outside
+    // the range in which the models are meant to be evaluated (uv-theory B3 zoo mixture: a
+    // "liquid spinodal" at packing fraction 1.0 on a cut-off of the piecewise model)
+    if let Ok(rm) = model.max_density(Some(&cp.moles)) {
+        if sp.iter().any(|s| s.density.to_reduced() > rm.to_reduced()) {
+            obs.class("spinodal state beyond max_density: not asserted");
+            return;
+        }
+    }
+    let mut rho = [0.0; 2];
+    for (k, (s, side)) in sp.iter().zip(["vapor", "liquid"]).enumerate() {
+        let Some(f) = fresh(model, s) else {
+            obs.fail(format!("{what}: the returned {side} spinodal state cannot be rebuilt"));
+            return;
+        };
+        let ms = measures(&f);
+        rho[k] = f.density.to_reduced();
+        worst(&format!("|lambda_min| spinodal {side}"), ms.lambda_min.abs());
+        ensure(obs, "spinodal:lambda_min", ms.lambda_min.abs() <= TOL_SPINODAL, || {
+            format!(
+                "{what}: {side} spinodal state has smallest eigenvalue {:e} (tolerance {TOL_SPINODAL:e}) at T={} rho={}",
+                ms.lambda_min, f.temperature, f.density
+            )
+        });
+        if let Some(t) = t_spec {
+            ensure(obs, "spinodal:T", f.temperature.to_reduced() == t.to_reduced(), || {
+                format!("{what}: {side} spinodal temperature {} differs from the specification {}", f.temperature, t)
+            });
+        }
+        // composition is the specified one
+        let dx: f64 = f.molefracs.iter().zip(cp.molefracs.iter()).map(|(a, b)| (a - b).abs()).sum();
+        ensure(obs, "spinodal:x", dx <= 1e-12, || format!("{what}: {side} spinodal composition differs from the specification by {dx:e}"));
+    }
+    let bracket = rho[0] < rho_c && rho_c < rho[1];
+    obs.count();
+    if !bracket && !in_domain {
+        obs.class("zoo mixture (not 'as in C05'): critical density not bracketed, not asserted");
+    } else if !bracket {
+        let msg = format!(
+            "{what}: spinodal densities do not bracket the critical density: rho_v={:e} rho_c={rho_c:e} rho_l={:e} (T={})",
+            rho[0], rho[1], sp[0].temperature
+        );
+        // signature: the liquid-side iteration returned the vapour spinodal again, and the seed
+        // 2 rho_c - rho_v of the liquid-side Newton iteration (critical_point.rs:345) is outside the
+        // basin of attraction of the liquid spinodal: lambda_min(rho) does not increase with density
+        // there (a Newton step on lambda_min then moves away from the liquid spinodal, whatever the
+        // sign of lambda_min), or the seed lies beyond the density range of the model
+        let seed = 2.0 * rho_c - rho[0];
+        let lam_at = |r: f64| -> Option<f64> {
+            let st = State::new_nvt(model, sp[0].temperature, sp[0].moles.sum() / Density::from_reduced(r), &sp[0].moles).ok()?;
+            Some(measures(&st).lambda_min).filter(|l| l.is_finite())
+        };
+        let downhill = match (lam_at(seed * (1.0 - 1e-4)), lam_at(seed * (1.0 + 1e-4))) {
+            // "does not increase": up to 1e-6 of the value over the 2e-4 relative density step
+            // (at the exact minimum of lambda_min the direction of the first Newton step depends on
+            // the last digits of the library's own rho_c and rho_v)
+            (Some(a), Some(b)) => b - a <= 1e-6 * (1.0 + a.abs()),
+            _ => true,
+        };
+        if (rho[1] / rho[0] - 1.0).abs() <= 1e-6 && rho[0] < rho_c && downhill {
+            obs.class(format!("liquid spinodal = vapour spinodal, theta in [{:.1},{:.1})", (theta * 10.0).floor() / 10.0, (theta * 10.0).floor() / 10.0 + 0.1));
+            obs.known_or_fail("C06/liquid-spinodal-on-vapour-branch", msg);
+        } else {
+            obs.class("FAILED:spinodal:bracket");
+            obs.fail(msg);
+        }
+    } else {
+        obs.class("spinodal brackets the critical density");
+    }
+    if let Some((rv, rl)) = vle {
+        ensure(obs, "spinodal:inside-binodal(vapor)", rv < rho[0], || {
+            format!("{what}: vapor spinodal not inside the binodal: rho_v_sat={rv:e} rho_v_spin={:e} (T={})", rho[0], sp[0].temperature)
+        });
+        if bracket {
+            ensure(obs, "spinodal:inside-binodal(liquid)", rho[1] < rl, || {
+                format!("{what}: liquid spinodal not inside the binodal: rho_l_spin={:e} rho_l_sat={rl:e} (T={})", rho[1], sp[0].temperature)
+            });
+        }
+        obs.class("inside-binodal checked");
+    }
+    // a state midway between the two spinodal densities is unstable
+    if bracket {
+        let rho_mid = 0.5 * (rho[0] + rho[1]);
+        let ntot = sp[0].moles.sum();
+        if let Ok(mid) = State::new_nvt(model, sp[0].temperature, ntot / Density::from_reduced(rho_mid), &sp[0].moles) {
+            let ms = measures(&mid);
+            if pure {
+                ensure(obs, "spinodal:midpoint", ms.lambda_min < 0.0, || {
+                    format!(
+                        "{what}: state midway between the spinodal densities is not unstable: lambda_min={:e} at rho={rho_mid:e} (T={})",
+                        ms.lambda_min, sp[0].temperature
+                    )
+                });
+            } else {
+                // mixtures at fixed composition can have several unstable density intervals
+                obs.class(if ms.lambda_min < 0.0 { "mixture midpoint unstable" } else { "mixture midpoint stable (several unstable intervals)" });
+            }
+        }
+    }
+}
+
+/// A confirmed vapour-liquid critical point of the pure model above temperature `t` (K), searched
+/// from a few initial temperatures.
+fn vle_critical_point_above(model: &Arc<Model>, t: f64) -> Option<St> {
+    for ti in [1.5 * t, 2.0 * t, 3.0 * t, 4.0 * t, 500.0, 700.0] {
+        if let Ok(s) = State::critical_point(model, None, Some(Temperature::from_reduced(ti)), SolverOptions::default()) {
+            if s.temperature.to_reduced() > 1.05 * t && is_vle_critical_point(model, &s) {
+                return Some(s);
+            }
+        }
+    }
+    None
+}
+
+/// Is the returned critical point the vapour-liquid critical point of this composition, so that
+/// "T in [0.5,0.99] T_c" refers to the temperature the property means? Positive pressure; on the
+/// critical isotherm the fluid is stable on both sides of the critical density (lambda_min has a
+/// minimum there: the two spinodal branches emerge *below* T_c, not above as at a point where a
+/// stable window opens inside an unstable region); just below T_c the fluid is unstable at the
+/// critical density. Recomputed from fresh states, independent of the phase-equilibrium solvers.
+fn is_vle_critical_point(model: &Arc<Model>, cp: &St) -> bool {
+    if !(cp.pressure(TOT).to_reduced() > 0.0) {
+        return false;
+    }
+    let lam = |ft: f64, fv: f64| -> Option<f64> {
+        let s = State::new_nvt(model, cp.temperature * ft, cp.volume * fv, &cp.moles).ok()?;
+        Some(measures(&s).lambda_min)
+    };
+    matches!(
+        (lam(0.99, 1.0), lam(1.0, 1.0 / 0.97), lam(1.0, 1.0 / 1.03)),
+        (Some(a), Some(b), Some(c)) if a < 0.0 && b > 0.0 && c > 0.0
+    )
+}
+
+// ---------------------------------------------------------------------------------------
+// part 1: pure substances (lattice over the shipped records, sampled Peng-Robinson triples)
+// ---------------------------------------------------------------------------------------
+#[derive(Serialize, Deserialize, Clone, Debug)]
+pub struct PureCase {
+    pub spec: ModelSpec,
+    /// initial temperatures as multiples of the converged critical temperature
+    pub f_init: Vec<f64>,
+    /// spinodal temperatures as multiples of the critical temperature
+    pub theta: Vec<f64>,
+}
+
+pub fn check_pure(case: &PureCase, obs: &mut Obs) {
+    let spec = &case.spec;
+    obs.class(spec.label());
+    obs.class(spec.source.clone());
+    let model = match spec.build() {
+        Ok(m) => m,
+        Err(e) => {
+            obs.discard(format!("build:{}", e.chars().take(40).collect::<String>()));
+            return;
+        }
+    };
+    let opt = SolverOptions::default();
+    let cp = match State::critical_point(&model, None, None, opt) {
+        Ok(s) => s,
+        Err(_) => {
+            obs.class("critical_point: Err");
+            return;
+        }
+    };
+    obs.class("critical_point: Ok");
+    check_critical_pure(&model, spec, true, &cp, obs, "critical_point (pure)");
+    check_critical(&model, &cp, obs, "critical_point (pure)");
+    let tc = cp.temperature;
+    let (tc_r, rho_c) = (tc.to_reduced(), cp.density.to_reduced());
+    obs.nontrivial();
+
+    // Peng-Robinson: the critical point is the (Tc, pc) the parameters were built from
+    if spec.family == Family::PengRobinson {
+        let mr = &spec.pure[0]["model_record"];
+        let (tc0, pc0) = (mr["tc"].as_f64().unwrap(), mr["pc"].as_f64().unwrap());
+        let (tk, pk) = (tc.convert_to(KELVIN), cp.pressure(TOT).convert_to(PASCAL));
+        let ok = (tk / tc0 - 1.0).abs() <= TOL_PR && (pk / pc0 - 1.0).abs() <= TOL_PR;
+        obs.count();
+        if !ok {
+            let msg = format!("Peng-Robinson: computed critical point T={tk} K p={pk:e} Pa differs from the record Tc={tc0} K pc={pc0:e} Pa");
+            // signature: the returned point is the second root beyond the kink of alpha(T)
+            // (kappa > 1, T > 2 Tc) while a start at the record's Tc returns the record's point
+            let w = mr["acentric_factor"].as_f64().unwrap();
+            let kappa = 0.37464 + 1.54226 * w - 0.26992 * w * w;
+            let from_tc = State::critical_point(&model, None, Some(Temperature::from_reduced(tc0)), opt)
+                .map(|s| (s.temperature.convert_to(KELVIN) / tc0 - 1.0).abs() <= TOL_PR && (s.pressure(TOT).convert_to(PASCAL) / pc0 - 1.0).abs() <= TOL_PR)
+                .unwrap_or(false);
+            if kappa > 1.0 && tk > 2.0 * tc0 && from_tc {
+                obs.class("Peng-Robinson second root (alpha kink)");
+                obs.known_or_fail("C06/peng-robinson-second-critical-point", msg);
+            } else {
+                obs.class("FAILED:PR:Tc,pc");
+                obs.fail(msg);
+            }
+        } else {
+            worst("Peng-Robinson |Tc_calc/Tc-1|", (tk / tc0 - 1.0).abs());
+            worst("Peng-Robinson |pc_calc/pc-1|", (pk / pc0 - 1.0).abs());
+            obs.class("Peng-Robinson Tc, pc reproduced");
+        }
+    }
+
+    // other initial temperatures: conditions hold at whatever is returned
+    for &f in &case.f_init {
+        match State::critical_point(&model, None, Some(tc * f), opt) {
+            Err(_) => obs.class("initial temperature: Err"),
+            Ok(s) => {
+                check_critical_pure(&model, spec, false, &s, obs, &format!("critical_point (pure, T_init={f:.3} Tc)"));
+                let same = (s.temperature.to_reduced() / tc_r - 1.0).abs() <= TOL_SAME
+                    && (s.density.to_reduced() / rho_c - 1.0).abs() <= TOL_SAME;
+                if same {
+                    worst("same point |dT/T| (pure)", (s.temperature.to_reduced() / tc_r - 1.0).abs());
+                }
+                let near = |st: &St| {
+                    spec.family == Family::PengRobinson
+                        && st.temperature.convert_to(KELVIN) < 2.0 * spec.pure[0]["model_record"]["tc"].as_f64().unwrap_or(0.0)
+                };
+                if near(&s) && near(&cp) {
+                    // below the kink of alpha(T) the cubic has exactly one critical point
+                    ensure(obs, "PR:same point", same, || {
+                        format!(
+                            "Peng-Robinson: T_init={f:.3} Tc converged to a different point: T={} rho={} vs T={} rho={}",
+                            s.temperature, s.density, cp.temperature, cp.density
+                        )
+                    });
+                }
+                obs.class(if same { "initial temperature: same point" } else { "initial temperature: different root" });
+            }
+        }
+    }
+
+    // spinodals: T in [0.5,0.99] T_c refers to the vapour-liquid critical temperature
+    if !is_vle_critical_point(&model, &cp) {
+        obs.class("critical point is not a confirmed vapour-liquid critical point: spinodals skipped");
+        return;
+    }
+    for &th in &case.theta {
+        let t = tc * th;
+        match State::spinodal(&model, t, None, opt) {
+            Err(_) => obs.class(format!("spinodal: Err (theta={th:.2})")),
+            Ok(sp) => {
+                obs.class("spinodal: Ok");
+                let vle = PhaseEquilibrium::pure(&model, t, None, opt)
+                    .ok()
+                    .map(|v| (v.vapor().density.to_reduced(), v.liquid().density.to_reduced()));
+                if vle.is_none() {
+                    obs.class("binodal: Err");
+                }
+                check_spinodal_pair(&model, &sp, &cp, Some(t), th, vle, true, obs, &format!("spinodal (pure, T={th:.3} Tc)"));
+            }
+        }
+    }
+}
+
+fn pure_lattice() -> Vec<PureCase> {
+    let mut v = vec![];
+    let mut push = |family: Family, rec: &Value, source: String| {
+        v.push(PureCase {
+            spec: ModelSpec {
+                family,
+                pure: vec![rec.clone()],
+                binary: vec![],
+                seg: None,
+                opts: Opts::default(),
+                source,
+            },
+            f_init: vec![0.5, 1.6],
+            theta: vec![0.5, 0.7, 0.9, 0.99],
+        });
+    };
+    for (f, recs) in &POOLS.pcsaft {
+        for r in recs {
+            push(Family::PcSaft, r, format!("shipped:{f}"));
+        }
+    }
+    for r in &POOLS.vrmie {
+        push(Family::SaftVRMie, r, "shipped:lafitte2013".into());
+    }
+    for (f, recs) in &POOLS.vrq {
+        for r in recs {
+            push(Family::SaftVRQMie, r, format!("shipped:{f}"));
+        }
+    }
+    v
+}
+
+fn decode_pr(g: &mut Gen) -> PureCase {
+    let tc = g.range(100.0, 800.0);
+    let pc = g.range(5e5, 100e5);
+    let w = g.range(-0.1, 0.9);
+    let spec = ModelSpec {
+        family: Family::PengRobinson,
+        pure: vec![json!({"identifier": {"name": "comp0", "cas": "100-00-0"}, "molarweight": g.range(16.0, 200.0),
+            "model_record": {"tc": tc, "pc": pc, "acentric_factor": w}})],
+        binary: vec![],
+        seg: None,
+        opts: Opts::default(),
+        source: "random".into(),
+    };
+    PureCase {
+        spec,
+        f_init: vec![g.range(0.5, 1.6), g.range(0.5, 1.6)],
+        theta: vec![g.range(0.5, 0.99), g.range(0.5, 0.99)],
+    }
+}
+
+// ---------------------------------------------------------------------------------------
+// part 2: mixtures at fixed composition (critical point, spinodal pair, spinodal diagram)
+// ---------------------------------------------------------------------------------------
+#[derive(Serialize, Deserialize, Clone, Debug)]
+pub struct MixCase {
+    pub spec: ModelSpec,
+    pub x: Vec<f64>,
+    /// initial temperature as a multiple of the converged value
+    pub f_init: f64,
+    /// spinodal temperature / T_c of the same model and composition
+    pub theta: f64,
+    /// number of points of PhaseDiagram::spinodal (0: not called)
+    pub npoints: usize,
+    /// total amount of substance in mol
+    pub lambda: f64,
+}
+
+fn hydrocarbons() -> Vec<Value> {
+    let mut v: Vec<Value> = POOLS.pcsaft[0]
+        .1
+        .iter()
+        .filter(|r| {
+            let id = &r["identifier"];
+            let s = id["smiles"].as_str().or(id["formula"].as_str()).unwrap_or("X");
+            s.chars().all(|c| "CcHh0123456789()=#[]@/\\-".contains(c))
+        })
+        .cloned()
+        .collect();
+    v.sort_by(|a, b| {
+        a["model_record"]["m"]
+            .as_f64()
+            .partial_cmp(&b["model_record"]["m"].as_f64())
+            .unwrap()
+    });
+    v
+}
+
+fn gen_hydrocarbons(g: &mut Gen, n: usize) -> ModelSpec {
+    // PC-SAFT hydrocarbons of similar chain length (as C05)
+    let pool = hydrocarbons();
+    let i0 = g.index(pool.len());
+    let mut pure = vec![pool[i0].clone()];
+    for _ in 1..n {
+        let lo = i0.saturating_sub(8);
+        let hi = (i0 + 8).min(pool.len() - 1);
+        pure.push(pool[lo + g.index(hi - lo + 1)].clone());
+    }
+    let mut binary = vec![];
+    for i in 0..n {
+        for j in i + 1..n {
+            if g.bool(0.6) {
+                binary.push((i, j, json!({"k_ij": g.range(-0.08, 0.08)})));
+            }
+        }
+    }
+    ModelSpec {
+        family: Family::PcSaft,
+        pure,
+        binary,
+        seg: None,
+        opts: Opts::default(),
+        source: "hydrocarbons:gross2001".into(),
+    }
+}
+
+fn gen_pr_mixture(g: &mut Gen, n: usize) -> ModelSpec {
+    // Peng-Robinson, all pairwise critical temperature ratios < 1.8 (1.34^2)
+    let tc0 = g.range(150.0, 600.0);
+    let mut pure = vec![];
+    for k in 0..n {
+        let tc = if k == 0 { tc0 } else { tc0 * g.range(1.0 / 1.34, 1.34) };
+        pure.push(json!({"identifier": {"name": format!("comp{k}"), "cas": format!("{}-00-{k}", 100 + k)},
+            "molarweight": g.range(16.0, 200.0),
+            "model_record": {"tc": tc, "pc": g.range(10e5, 80e5), "acentric_factor": g.range(-0.1, 0.6)}}));
+    }
+    let mut binary = vec![];
+    for i in 0..n {
+        for j in i + 1..n {
+            if g.bool(0.6) {
+                binary.push((i, j, json!(g.range(-0.08, 0.08))));
+            }
+        }
+    }
+    ModelSpec {
+        family: Family::PengRobinson,
+        pure,
+        binary,
+        seg: None,
+        opts: Opts::default(),
+        source: "random".into(),
+    }
+}
+
+fn gen_zoo(g: &mut Gen, min_comp: usize, max_comp: usize) -> ModelSpec {
+    let mut families = vec![
+        Family::PcSaft,
+        Family::SaftVRMie,
+        Family::GcPcSaft,
+        Family::Pets,
+        Family::UVTheory,
+        Family::SaftVRQMie,
+    ];
+    if max_comp == 1 {
+        families.push(Family::PcSaftFunctional);
+        families.push(Family::PetsFunctional);
+    }
+    let mut s = gen_model(g, &GenCfg { families, min_comp, max_comp });
+    if s.family == Family::SaftVRQMie && s.n() > 2 {
+        // quantum-corrected Mie ternaries cost 0.6 s per case
+        s = s.subset(&[0, 1]);
+    }
+    s.source = format!("zoo:{}", s.source);
+    s
+}
+
+fn gen_mix_spec(g: &mut Gen) -> ModelSpec {
+    match g.index(5) {
+        0 => gen_hydrocarbons(g, 2),
+        1 => gen_hydrocarbons(g, 3),
+        2 => {
+            let n = 2 + g.index(2);
+            gen_pr_mixture(g, n)
+        }
+        3 => gen_zoo(g, 2, 3),
+        _ => gen_zoo(g, 1, 1),
+    }
+}
+
+fn decode_mix(g: &mut Gen) -> MixCase {
+    let spec = gen_mix_spec(g);
+    let n = spec.n();
+    let x = g.simplex(n, 0.02);
+    let f_init = if g.bool(0.7) { g.range(0.5, 1.6) } else { 0.0 };
+    let theta = g.range(0.5, 0.99);
+    let npoints = if g.bool(0.3) { 3 + g.index(6) } else { 0 };
+    let lambda = if g.bool(0.5) { g.log_range(1e-3, 1e3) } else { 1.0 };
+    MixCase {
+        spec,
+        x,
+        f_init,
+        theta,
+        npoints,
+        lambda,
+    }
+}
+
+pub fn check_mix(case: &MixCase, obs: &mut Obs) {
+    let spec = &case.spec;
+    let n = spec.n();
+    obs.class(spec.label());
+    obs.class(format!("n={n}"));
+    obs.class(format!("source:{}", spec.source.split(':').next().unwrap_or("")));
+    let model = match spec.build() {
+        Ok(m) => m,
+        Err(e) => {
+            obs.discard(format!("build:{}", e.chars().take(40).collect::<String>()));
+            return;
+        }
+    };
+    let opt = SolverOptions::default();
+    let moles = Array1::from_vec(case.x.clone()) * MOL * case.lambda;
+    let cp = match State::critical_point(&model, Some(&moles), None, opt) {
+        Ok(s) => s,
+        Err(_) => {
+            obs.class("critical_point: Err");
+            return;
+        }
+    };
+    obs.class("critical_point: Ok");
+    let ok = check_critical(&model, &cp, obs, "critical_point");
+    let tc = cp.temperature;
+    // non-trivial: a real mixture (x in [0.05,0.95], pure critical temperatures differ by > 5 K)
+    let pure_tcs: Vec<f64> = (0..n).map(|i| pure_tc(spec, &model, i)).collect();
+    let spread = pure_tcs.iter().cloned().fold(f64::MIN, f64::max) - pure_tcs.iter().cloned().fold(f64::MAX, f64::min);
+    let real_mix = n >= 2 && case.x.iter().all(|&x| (0.05..=0.95).contains(&x)) && spread > 5.0;
+    if ok && (real_mix || n == 1) {
+        obs.nontrivial();
+    }
+    if real_mix {
+        obs.class("real mixture");
+    }
+    if cp.pressure(TOT).to_reduced() <= 0.0 {
+        obs.class("critical pressure <= 0");
+    }
+    if n == 1 {
+        // the property quantifies over the shipped pure records (and Peng-Robinson triples):
+        // perturbed / random zoo records are outside it (strongly quadrupolar random records have
+        // their only stationary point at negative pressure)
+        if spec.source.contains("shipped:") || spec.source.starts_with("hydrocarbons") || spec.family == Family::PengRobinson {
+            check_critical_pure(&model, spec, true, &cp, obs, "critical_point (pure)");
+        } else {
+            obs.class("zoo pure fluid (not a shipped record): pressure clause not asserted");
+        }
+    }
+
+    if case.f_init > 0.0 {
+        match State::critical_point(&model, Some(&moles), Some(tc * case.f_init), opt) {
+            Err(_) => obs.class("initial temperature: Err"),
+            Ok(s) => {
+                check_critical(&model, &s, obs, &format!("critical_point (T_init={:.3} Tc)", case.f_init));
+                let same = (s.temperature.to_reduced() / tc.to_reduced() - 1.0).abs() <= TOL_SAME
+                    && (s.density.to_reduced() / cp.density.to_reduced() - 1.0).abs() <= TOL_SAME;
+                obs.class(if same { "initial temperature: same point" } else { "initial temperature: different root" });
+            }
+        }
+    }
+
+    // spinodals: "T in [0.5,0.99] T_c" refers to the vapour-liquid critical temperature of this
+    // model and composition
+    let genuine = if n == 1 {
+        is_vle_critical_point(&model, &cp)
+    } else {
+        // mixtures: the critical point lies on the flank of the spinodal dome, so the pure-fluid
+        // test does not apply. Vapour-liquid-like: positive pressure, T_c inside [0.9 min, 1.1 max]
+        // of the pure critical temperatures, critical density below half the model's maximum
+        // density (pure fluids: 0.25-0.4), unstable at the critical density just below T_c.
+        let lo = pure_tcs.iter().cloned().fold(f64::MAX, f64::min);
+        let hi = pure_tcs.iter().cloned().fold(f64::MIN, f64::max);
+        let tk = tc.convert_to(KELVIN);
+        let dense = model
+            .max_density(Some(&moles))
+            .map(|rm| cp.density.to_reduced() > 0.5 * rm.to_reduced())
+            .unwrap_or(true);
+        let below = State::new_nvt(&model, tc * 0.99, cp.volume, &cp.moles)
+            .map(|s| measures(&s).lambda_min < 0.0)
+            .unwrap_or(false);
+        cp.pressure(TOT).to_reduced() > 0.0 && tk >= 0.9 * lo && tk <= 1.1 * hi && !dense && below
+    };
+    if !genuine {
+        obs.class("critical point is not a confirmed vapour-liquid critical point: spinodals skipped");
+        return;
+    }
+    // "binary mixtures and compositions as in C05": hydrocarbon / Peng-Robinson mixtures with similar
+    // components; for the zoo mixtures only the eigenvalue condition of returned states is asserted
+    let in_domain = n == 1 || !spec.source.starts_with("zoo");
+    // spinodal pair at theta * Tc of the same model and composition
+    let t = tc * case.theta;
+    let vle = |t: Temperature| -> Option<(f64, f64)> {
+        if n != 1 {
+            return None;
+        }
+        PhaseEquilibrium::pure(&model, t, None, opt)
+            .ok()
+            .map(|v| (v.vapor().density.to_reduced(), v.liquid().density.to_reduced()))
+    };
+    match State::spinodal(&model, t, Some(&moles), opt) {
+        Err(_) => obs.class("spinodal: Err"),
+        Ok(sp) => {
+            obs.class("spinodal: Ok");
+            check_spinodal_pair(&model, &sp, &cp, Some(t), case.theta, vle(t), in_domain, obs, &format!("spinodal (T={:.3} Tc)", case.theta));
+        }
+    }
+    // spinodal diagram from theta*Tc upwards
+    if case.npoints >= 3 {
+        match PhaseDiagram::spinodal(&model, &moles, t, case.npoints, None, opt) {
+            Err(_) => obs.class("PhaseDiagram::spinodal: Err"),
+            Ok(dia) => {
+                obs.class("PhaseDiagram::spinodal: Ok");
+                let ns = dia.states.len();
+                ensure(obs, "diagram:count", ns >= 1 && ns <= case.npoints, || format!("PhaseDiagram::spinodal returned {ns} states for npoints={}", case.npoints));
+                if ns == case.npoints {
+                    obs.class("PhaseDiagram::spinodal: all points");
+                }
+                for (k, pe) in dia.states.iter().enumerate() {
+                    if k + 1 == ns {
+                        // last state: the critical point, both phases identical
+                        let (a, b) = (pe.vapor(), pe.liquid());
+                        ensure(
+                            obs,
+                            "diagram:last is critical",
+                            a.density.to_reduced() == b.density.to_reduced() && a.temperature.to_reduced() == b.temperature.to_reduced(),
+                            || "PhaseDiagram::spinodal: last state is not a critical point (phases differ)".to_string(),
+                        );
+                        check_critical(&model, a, obs, "PhaseDiagram::spinodal critical point");
+                    } else {
+                        let tk = pe.vapor().temperature;
+                        let th = tk.to_reduced() / tc.to_reduced();
+                        ensure(obs, "diagram:T range", (case.theta - 1e-9..1.0).contains(&th), || {
+                            format!("PhaseDiagram::spinodal: temperature {tk} of point {k} outside [min_temperature, Tc)")
+                        });
+                        if th > 0.99 {
+                            obs.class("PhaseDiagram::spinodal point above 0.99 Tc (outside the stated range): not checked");
+                            continue;
+                        }
+                        let pair = [pe.vapor().clone(), pe.liquid().clone()];
+                        check_spinodal_pair(&model, &pair, &cp, None, th, vle(tk), in_domain, obs, &format!("PhaseDiagram::spinodal point {k} (T={th:.3} Tc)"));
+                    }
+                }
+            }
+        }
+    }
+}
+
+// ---------------------------------------------------------------------------------------
+// part 3: binary critical points at given temperature / pressure
+// ---------------------------------------------------------------------------------------
+#[derive(Serialize, Deserialize, Clone, Debug)]
+pub struct BinCase {
+    pub spec: ModelSpec,
+    /// composition that anchors the specification on the critical locus
+    pub x: f64,
+    /// relative offsets of the specified T and p from the anchor
+    pub dt: f64,
+    pub dp: f64,
+    /// give the solver initial values: composition of the anchor, temperature f_init x anchor
+    pub guided: bool,
+    /// initial temperature (given p) as a multiple of the anchor temperature, in [0.5, 1.6]
+    pub f_init: f64,
+}
+
+fn decode_bin(g: &mut Gen) -> BinCase {
+    let mut spec = match g.index(3) {
+        0 => gen_hydrocarbons(g, 2),
+        1 => gen_pr_mixture(g, 2),
+        _ => gen_zoo(g, 2, 2),
+    };
+    if spec.n() > 2 {
+        spec = spec.subset(&[0, 1]);
+    }
+    BinCase {
+        spec,
+        x: g.range(0.05, 0.95),
+        dt: g.range(-0.03, 0.03),
+        dp: g.range(-0.03, 0.03),
+        guided: !g.bool(0.3),
+        f_init: if g.bool(0.5) { g.range(0.5, 1.6) } else { 1.0 },
+    }
+}
+
+pub fn check_bin(case: &BinCase, obs: &mut Obs) {
+    let spec = &case.spec;
+    obs.class(spec.label());
+    obs.class(format!("source:{}", spec.source.split(':').next().unwrap_or("")));
+    if spec.n() != 2 {
+        obs.discard("not a binary");
+        return;
+    }
+    let model = match spec.build() {
+        Ok(m) => m,
+        Err(e) => {
+            obs.discard(format!("build:{}", e.chars().take(40).collect::<String>()));
+            return;
+        }
+    };
+    let opt = SolverOptions::default();
+    let x = [case.x, 1.0 - case.x];
+    let moles = Array1::from_vec(x.to_vec()) * MOL;
+    // anchor on the critical locus
+    let anchor = match State::critical_point(&model, Some(&moles), None, opt) {
+        Ok(s) => s,
+        Err(_) => {
+            obs.class("anchor critical_point: Err");
+            return;
+        }
+    };
+    let (ta, pa) = (anchor.temperature, anchor.pressure(TOT));
+    if pa.to_reduced() <= 0.0 {
+        obs.class("anchor pressure <= 0");
+        return;
+    }
+    let tcs = [pure_tc(spec, &model, 0), pure_tc(spec, &model, 1)];
+    let (init_t, init_x) = if case.guided { (Some(ta * case.f_init), Some(x)) } else { (None, None) };
+    obs.class(if case.guided { "guided" } else { "unguided" });
+
+    // --- given temperature ---
+    let t_spec = ta * (1.0 + case.dt);
+    match State::critical_point_binary(&model, t_spec, init_t, init_x, opt) {
+        Err(_) => obs.class("binary(T): Err"),
+        Ok(s) => {
+            obs.class("binary(T): Ok");
+            ensure(obs, "binary(T):T", s.temperature.to_reduced() == t_spec.to_reduced(), || {
+                format!("critical_point_binary at given T: returned temperature {} is not the specification {}", s.temperature, t_spec)
+            });
+            let ok = check_critical(&model, &s, obs, "critical_point_binary(T)");
+            let tk = t_spec.convert_to(KELVIN);
+            if ok && tcs.iter().all(|tc| (tk / tc - 1.0).abs() > 0.01) {
+                obs.nontrivial();
+                obs.class("binary(T): non-trivial");
+            }
+        }
+    }
+    // --- given pressure ---
+    let p_spec = pa * (1.0 + case.dp);
+    match State::critical_point_binary(&model, p_spec, init_t, init_x, opt) {
+        Err(_) => obs.class("binary(p): Err"),
+        Ok(s) => {
+            obs.class("binary(p): Ok");
+            if let Some(f) = fresh(&model, &s) {
+                let p = f.pressure(TOT).to_reduced();
+                worst("binary(p) |p/p_spec-1|", (p / p_spec.to_reduced() - 1.0).abs());
+                if !obs.close("critical_point_binary at given p: pressure of the returned state", p, p_spec.to_reduced(), TOL_P, 0.0) {
+                    obs.class("FAILED:binary(p):p");
+                }
+            }
+            let ok = check_critical(&model, &s, obs, "critical_point_binary(p)");
+            if ok && s.molefracs.iter().all(|&x| (0.01..=0.99).contains(&x)) {
+                obs.nontrivial();
+                obs.class("binary(p): non-trivial");
+            }
+        }
+    }
+}
+
+// ---------------------------------------------------------------------------------------
+// part 4: anchors — textbook systems on which the solvers must return a result. The property
+// only speaks about returned states; without these a change that makes every solver call fail
+// would leave the other parts vacuously green. (The library's own tests pin the critical points
+// of PC-SAFT propane and of a Peng-Robinson fluid.)
+// ---------------------------------------------------------------------------------------
+#[derive(Serialize, Deserialize, Clone, Debug)]
+pub struct AnchorCase {
+    pub spec: ModelSpec,
+    pub x: Vec<f64>,
+}
+
+fn anchors() -> Vec<AnchorCase> {
+    let rec = |name: &str| -> Value {
+        POOLS.pcsaft[0]
+            .1
+            .iter()
+            .find(|r| r["identifier"]["name"].as_str() == Some(name))
+            .unwrap_or_else(|| panic!("gross2001 record {name}"))
+            .clone()
+    };
+    let pc = |names: &[&str], x: &[f64]| AnchorCase {
+        spec: ModelSpec {
+            family: Family::PcSaft,
+            pure: names.iter().map(|n| rec(n)).collect(),
+            binary: vec![],
+            seg: None,
+            opts: Opts::default(),
+            source: "hydrocarbons:gross2001".into(),
+        },
+        x: x.to_vec(),
+    };
+    let pr = |recs: &[(f64, f64, f64)], x: &[f64]| AnchorCase {
+        spec: ModelSpec {
+            family: Family::PengRobinson,
+            pure: recs
+                .iter()
+                .enumerate()
+                .map(|(k, (tc, pc, w))| {
+                    json!({"identifier": {"name": format!("comp{k}"), "cas": format!("{}-00-{k}", 100 + k)}, "molarweight": 40.0,
+                    "model_record": {"tc": tc, "pc": pc, "acentric_factor": w}})
+                })
+                .collect(),
+            binary: vec![],
+            seg: None,
+            opts: Opts::default(),
+            source: "random".into(),
+        },
+        x: x.to_vec(),
+    };
+    vec![
+        pc(&["methane"], &[1.0]),
+        pc(&["propane"], &[1.0]),
+        pc(&["hexane"], &[1.0]),
+        pc(&["methane", "ethane"], &[0.5, 0.5]),
+        pc(&["propane", "butane"], &[0.3, 0.7]),
+        pc(&["ethane", "propane", "butane"], &[0.3, 0.3, 0.4]),
+        pr(&[(369.96, 4250000.0, 0.153)], &[1.0]),
+        pr(&[(369.96, 4250000.0, 0.153), (425.2, 3800000.0, 0.199)], &[0.5, 0.5]),
+    ]
+}
+
+pub fn check_anchor(case: &AnchorCase, obs: &mut Obs) {
+    let n = case.spec.n();
+    let mix = MixCase {
+        spec: case.spec.clone(),
+        x: case.x.clone(),
+        f_init: 1.3,
+        theta: 0.8,
+        npoints: 5,
+        lambda: 1.0,
+    };
+    check_mix(&mix, obs);
+    let mut need = vec!["critical_point: Ok", "spinodal: Ok", "PhaseDiagram::spinodal: all points", "spinodal brackets the critical density"];
+    if n == 2 {
+        let bin = BinCase {
+            spec: case.spec.clone(),
+            x: case.x[0],
+            dt: 0.01,
+            dp: 0.01,
+            guided: true,
+            f_init: 1.0,
+        };
+        check_bin(&bin, obs);
+        need.push("binary(T): Ok");
+        need.push("binary(p): Ok");
+    }
+    for c in need {
+        let have = obs.classes.iter().any(|k| k == c);
+        ensure(obs, "anchor", have, || {
+            format!("anchor system: expected '{c}' (a solver that returns a result) but it was not reached; the remaining parts may be vacuous")
+        });
+    }
+}
+
+// ---------------------------------------------------------------------------------------
+const PART_PR: PartCfg = PartCfg {
+    name: "peng-robinson",
+    genome_len: 12,
+    cases_quick: 2000,
+    cases_thorough: 200_000,
+    panic: PanicPolicy::Count,
+};
+const PART_MIX: PartCfg = PartCfg {
+    name: "mixture",
+    genome_len: 80,
+    cases_quick: 4000,
+    cases_thorough: 400_000,
+    panic: PanicPolicy::Count,
+};
+const PART_BIN: PartCfg = PartCfg {
+    name: "binary-tp",
+    genome_len: 80,
+    cases_quick: 2000,
+    cases_thorough: 200_000,
+    panic: PanicPolicy::Count,
+};
+
+pub fn run(ctx: &Ctx) {
+    ctx.set_rule("anchors: 8 textbook systems (PC-SAFT methane, propane, hexane, methane/ethane, propane/butane, ethane/propane/butane; Peng-Robinson propane, propane/butane) on which every solver call must return a result (guard against vacuity). pure-lattice (exhaustive): every pure record of the 9 shipped PC-SAFT files, lafitte2013 (SAFT-VR Mie) and the 3 SAFT-VRQ Mie files: State::critical_point without and with initial temperatures {0.5, 1.6} Tc, State::spinodal at {0.5, 0.7, 0.9, 0.99} Tc. peng-robinson (sampled): random (Tc, pc, omega), two initial temperatures in [0.5,1.6] Tc, two spinodal temperatures in [0.5,0.99] Tc. mixture (sampled): PC-SAFT hydrocarbon binaries/ternaries of gross2001 with k_ij in +-0.08, Peng-Robinson mixtures with Tc ratio < 1.8, zoo mixtures (PC-SAFT, SAFT-VR Mie, gc-PC-SAFT, PeTS, uv-theory, SAFT-VRQ Mie) and zoo pure fluids; composition in the simplex with x_i >= 0.02, total amount 1e-3..1e3 mol; critical_point (optionally from T_init in [0.5,1.6] Tc), State::spinodal at theta in [0.5,0.99] of the critical temperature of the same model and composition, PhaseDiagram::spinodal with 3-8 points. binary-tp (sampled): binaries of the same generators; the specification is anchored on the critical locus (T, p of critical_point at a composition x) and shifted by up to 3 %; critical_point_binary at given T and at given p, guided by the anchor (composition; initial temperature in [0.5,1.6] of the anchor temperature) or unguided. Non-trivial: pure: a critical point was returned; mixture: conditions conclusive, x in [0.05,0.95] and pure critical temperatures differing by > 5 K (or a pure fluid); binary-tp: conditions conclusive and the specified T differs from both pure critical temperatures by > 1 % (T) / the returned composition is inside [0.01,0.99] (p). Distinct by hash of the canonical case JSON.");
+    ctx.assume("all conditions are recomputed on a fresh State::new_nvt at the returned (T,V,N) from dp_dv, d2p_dv2, pressure, dmu_dni(Total) (validated by C01/C02); eigenvalues by the harness' Jacobi solver; the cubic form by Ridders' central differences of dn^T dmu_dni(n + eps sqrt(N) dn) dn / RT");
+    ctx.assume("tolerances (dimensionless, independent of the system size): pure critical points |V^2 dp_dv/(NRT)| <= 1e-6, |V^3 d2p_dv2/(NRT)| <= 1e-4 and spinodals |lambda_min| <= 1e-6 (100 x the solver's 1e-8 objective tolerance; worst seen 1e-11); mixture/binary critical points |lambda_min| <= 2e-4, |cubic| <= 1e-3 (+50 x the Ridders error estimate) = 50 x the worst values seen (3.2e-6, 1.4e-5: the solver's convergence test is made before its last update and does not see the cubic condition for N >> 1 particle). Peng-Robinson Tc, pc: 3e-4 (the documented truncated constants 0.45724/0.07780 shift Tc by -3.3e-5 and pc by -8.4e-5, exactly reproduced). given p: 1e-6 relative (worst seen 4.9e-9)");
+    ctx.assume("'different initial temperatures give the same point' is asserted only for pure Peng-Robinson (a cubic has exactly one critical point); for other models two different returned points that both satisfy the conditions do not contradict the property and are only counted");
+    ctx.assume("solver failures (Err) are counted, never violations: the property speaks about returned states");
+    ctx.run_lattice("anchors", anchors(), PanicPolicy::Violation, false, &check_anchor);
+    ctx.run_lattice("pure-lattice", pure_lattice(), PanicPolicy::Count, true, &check_pure);
+    ctx.run_sampled(&PART_PR, &decode_pr, &check_pure);
+    ctx.run_sampled(&PART_MIX, &decode_mix, &check_mix);
+    ctx.run_sampled(&PART_BIN, &decode_bin, &check_bin);
+    ctx.extra("worst_values", json!(*WORST.lock().unwrap()));
+}
+
+pub fn replay(ctx: &Ctx, part: &str, case: &Value) -> bool {
+    match part {
+        "pure-lattice" | "peng-robinson" => ctx.replay_case::<PureCase>(case, &check_pure),
+        "mixture" => ctx.replay_case::<MixCase>(case, &check_mix),
+        "binary-tp" => ctx.replay_case::<BinCase>(case, &check_bin),
+        "anchors" => ctx.replay_case::<AnchorCase>(case, &check_anchor),
+        other => {
+            eprintln!("unknown part {other}");
+            false
+        }
+    }
 }
